@@ -149,9 +149,10 @@ impl Core {
         if n < full {
             self.shortened += 1;
         }
-        let p = self.pos as usize;
-        buf[..n].copy_from_slice(&self.data[p..p + n]);
         if n > 0 {
+            // (a position beyond the end of the data is legal after a seek; nothing to copy then)
+            let p = self.pos as usize;
+            buf[..n].copy_from_slice(&self.data[p..p + n]);
             self.delivered.push((self.pos, self.pos + n as u64));
         }
         if self.keep_log {
